@@ -1,5 +1,5 @@
 (* C04 — A failing migration never leaves the version table out of step.   Statement-only file. *)
-From AV Require Import Spec.C04 Proofs.TxnProof Proofs.C04HeadsProof.
+From AV Require Import Spec.C04 Proofs.TxnProof Proofs.C04HeadsProof Proofs.C04UnifiedProof.
 From AV Require Proofs.HeadsProof.
 
 (* the decider applied to what a fresh connection finds after the real command is sound for the property *)
@@ -173,3 +173,51 @@ Proof. split; [vm_compute; reflexivity|]. split; [vm_compute; reflexivity|]. spl
   split; [apply (HeadsProof.rankedb_acyclic G4 N.to_nat); vm_compute; reflexivity|].
   split; [vm_compute; reflexivity|]. split; [apply gvalidb_spec; vm_compute; reflexivity|].
   vm_compute. repeat split. Qed.
+
+(* ================================================================== the transaction state machine, online and --sql *)
+(* the decision table of begin_transaction over all its inputs (rows: _in_external_transaction, transactional_ddl after
+   the override, transaction_per_migration, as_sql; columns: env.py's call / the per-migration call) *)
+Theorem C04_begin_transaction_table : forall tddl pm sql,
+  (forall h per, begin_transaction (mkMcfg tddl pm true sql) h per = BtNull) /\
+  begin_transaction (mkMcfg true false false sql) false false = (if sql then BtBeginCommit else BtProxy) /\
+  (forall h, begin_transaction (mkMcfg true false false sql) h true = BtNull) /\
+  (forall h, begin_transaction (mkMcfg true true false sql) h false = BtNull) /\
+  begin_transaction (mkMcfg true true false sql) false true = (if sql then BtBeginCommit else BtProxy) /\
+  (forall h, begin_transaction (mkMcfg false pm false sql) h false = BtNull) /\
+  begin_transaction (mkMcfg false pm false sql) false true = (if sql then BtNull else BtProxy) /\
+  begin_transaction (mkMcfg false pm false sql) true true = BtNull.
+Proof. exact bt_table_thm. Qed.
+Print Assumptions C04_begin_transaction_table.
+
+(* the atomicity statement per combination: which migrations' version rows survive a failure in migration k
+   (any body, autocommit sections included, exception in the script, in a callback or in the bookkeeping) *)
+Theorem C04_atomicity_table : forall i k, consistent i = true -> fail_index i = Some k ->
+  let rows := vrows (o_db (txn_run i)) in
+  let rows0 := vrows (i_db0 i) in
+  (* env.py already inside connection.begin(): nothing of the run *)
+  (i_external i = true -> rows = rows0) /\
+  (* transactional DDL, one enclosing transaction: the migrations before the last one that entered an autocommit section
+     (none of the run if no section was entered) *)
+  (i_external i = false -> i_tddl i = true -> i_per_mig i = false ->
+     rows = rows_after (firstn (last_autocommit (i_steps i) 0 0) (i_steps i)) rows0 /\
+     last_autocommit (i_steps i) 0 0 <= k /\
+     (none_enters (i_steps i) = true -> rows = rows0)) /\
+  (* transaction_per_migration: exactly the k completed migrations *)
+  (i_external i = false -> i_per_mig i = true -> rows = rows_after (firstn k (i_steps i)) rows0) /\
+  (* no transactional DDL: exactly the k completed migrations *)
+  (i_external i = false -> i_tddl i = false -> rows = rows_after (firstn k (i_steps i)) rows0).
+Proof. exact atomicity_table_thm. Qed.
+Print Assumptions C04_atomicity_table.
+
+(* --sql: whatever the settings and wherever the run fails, the database is untouched; online: C04g_holds *)
+Theorem C04u_main : forall u, u_as_sql u = true \/ consistent (to_input (u_gi u)) = true -> C04u_holds u (run_u u).
+Proof. exact C04u_main_thm. Qed.
+Print Assumptions C04u_main.
+Theorem C04u_decider_sound : forall u o, check_C04u u o = true -> C04u_holds u o.
+Proof. exact check_C04u_sound. Qed.
+Print Assumptions C04u_decider_sound.
+
+(* the decider of the base statement is also complete *)
+Theorem C04_decider_complete : forall i o, C04_holds i o -> check_C04 i o = true.
+Proof. exact check_C04_complete. Qed.
+Print Assumptions C04_decider_complete.
